@@ -104,6 +104,12 @@ def handle (j : Json) : R Json := do
     .ok (obj [("readout", enc (checkReadout start ts)), ("props", enc (checkProps start ts)),
               ("orig", enc (checkOrig start ts)), ("spec", Json.bool (validSpecB start ts)),
               ("steps", ofList ofX (steps start ts))])
+  | "floatclock" =>
+    -- the generic `steps` / `start + t` at Lean's binary64 `Float`: compared bit for bit with numpy
+    let start ← asFloatBits (← fld j "start")
+    let ts ← asList asFloatBits (← fld j "times")
+    .ok (obj [("steps", ofList ofFloatBits (steps start ts)),
+              ("abs", ofList ofFloatBits (ts.map (fun t => start + t)))])
   | _ => .error s!"unknown op {op}"
 
 end PyxelModel.C02
